@@ -917,10 +917,10 @@ func main() {
 		h.Sched(p.name, q, t, p.body, raceOracle(p.name))
 	}
 	for _, p := range serverPrograms() {
-		h.Sched(p.name, 0, 1, p.body, raceOracle(p.name))
+		h.Sched(p.name, 1, 2, p.body, raceOracle(p.name))
 	}
 	for _, p := range purePrograms() {
-		h.Sched(p.name, 0, 1, p.body, raceOracle(p.name))
+		h.Sched(p.name, 1, 2, p.body, raceOracle(p.name))
 	}
 	h.Run()
 }
